@@ -365,6 +365,7 @@ func (fc *followerController) Replicate(stream proto.OxiaLogReplication_Replicat
 
 	closeStreamWg := concurrent.NewWaitGroup(1)
 	fc.closeStreamWg = closeStreamWg
+	streamTerm := fc.term
 	fc.Unlock()
 
 	go process.DoWithLabels(
@@ -382,7 +383,7 @@ func (fc *followerController) Replicate(stream proto.OxiaLogReplication_Replicat
 			"oxia":  "add-entries-sync",
 			"shard": fmt.Sprintf("%d", fc.shardId),
 		},
-		func() { fc.handleReplicateSync(stream) },
+		func() { fc.handleReplicateSync(stream, streamTerm) },
 	)
 
 	return closeStreamWg.Wait(fc.ctx)
@@ -477,7 +478,7 @@ func (fc *followerController) append(req *proto.Append, stream proto.OxiaLogRepl
 	return nil
 }
 
-func (fc *followerController) handleReplicateSync(stream proto.OxiaLogReplication_ReplicateServer) {
+func (fc *followerController) handleReplicateSync(stream proto.OxiaLogReplication_ReplicateServer, streamTerm int64) {
 	for {
 		fc.Lock()
 		if err := fc.syncCond.Wait(stream.Context()); err != nil {
@@ -487,9 +488,16 @@ func (fc *followerController) handleReplicateSync(stream proto.OxiaLogReplicatio
 		}
 		// The controller can be closed (fc.wal set to nil) while this stream is still winding down
 		walLog := fc.wal
+		termIsCurrent := fc.term == streamTerm
 		fc.Unlock()
 		if walLog == nil {
 			fc.closeStream(constant.ErrAlreadyClosed)
+			return
+		}
+		if !termIsCurrent {
+			// The follower has moved to a new term and this stream, from the leader of a previous term, is
+			// winding down: the entries to sync belong to the stream of the next leader. Pass the signal on.
+			fc.syncCond.Signal()
 			return
 		}
 
@@ -507,6 +515,21 @@ func (fc *followerController) handleReplicateSync(stream proto.OxiaLogReplicatio
 		newHeadOffset := walLog.LastOffset()
 		if vhook.Enabled {
 			vhook.At("follower.sync.after", walLog, oldHeadOffset, newHeadOffset)
+		}
+
+		fc.Lock()
+		termIsCurrent = fc.term == streamTerm
+		fc.Unlock()
+		if !termIsCurrent {
+			// The term has changed during the sync: what got synced may include entries received from the
+			// next leader, which must not be acknowledged to the previous one. Closing the current stream
+			// makes that leader re-send them, and they will be acknowledged as duplicates.
+			if newHeadOffset > oldHeadOffset {
+				fc.closeStream(constant.ErrInvalidTerm)
+			} else {
+				fc.syncCond.Signal()
+			}
+			return
 		}
 		for offset := oldHeadOffset + 1; offset <= newHeadOffset; offset++ {
 			if err := stream.Send(&proto.Ack{Offset: offset}); err != nil {
